@@ -1748,11 +1748,11 @@ var safeSet = [utf8.RuneSelf]bool{
 	'\u007f': true,
 }
 
+// appendBytes prints a []byte value as a quoted, escaped string like
+// any other string value; written raw it could break the framing of
+// the record (quotes, line breaks, escape sequences).
 func (s *PrintCtx) appendBytes(z []byte) {
-	_, err := s.Write(z)
-	if err != nil {
-		hintInternal(err, "PrintCtx: appendBytes failed")
-	}
+	s.pcQuoteValue(string(z))
 }
 
 func (s *PrintCtx) appendStringSlice(val []string) {
